@@ -40,6 +40,7 @@ type pipeCase struct {
 	Repre      bool   // preprocess the definition once more (other own-weight setting) and dump the first result again
 	Reassemble bool   // after everything else: add a nodal load to a slice node through the exported API and assemble again
 	concurrent bool   // set by the concurrent command: leave process-wide settings alone
+	HoldText   string // a second definition solved in the same process after this one; the first solution is then looked at again
 	Restage    int    // k > 0: number a second structure made of the sliced bars but the (k-1 mod n)-th (a construction stage)
 }
 
@@ -135,6 +136,9 @@ type jPipeOut struct {
 	Sol        []jSolBar
 	Reactions  map[string][3]string
 	MaxError   string
+	SolHeld    []jSolBar          `json:",omitempty"` // the solution, read again after another structure was solved in the same process
+	ReacHeld   map[string][3]string `json:",omitempty"`
+	HeldPanic  string `json:",omitempty"`
 	PreText    string `json:",omitempty"`
 	DefText    string `json:",omitempty"`
 	SolText    string `json:",omitempty"`
@@ -233,6 +237,7 @@ func guard(where *string, f func()) {
 
 func runPipe(c pipeCase) (out jPipeOut) {
 	build.ReadBuildInfo()
+	var solKept *process.Solution
 	var str *structure.Structure
 	guard(&out.ParsePanic, func() { str = iodef.Read(strings.NewReader(c.Text)) })
 	if out.ParsePanic != "" {
@@ -364,6 +369,7 @@ func runPipe(c pipeCase) (out jPipeOut) {
 		guard(&out.SolvePanic, func() {
 			sol = process.Solve(pre, process.SolveOptions{MaxDisplacementsError: maxErr})
 		})
+		solKept = sol
 		if !c.concurrent {
 			os.Unsetenv("VERIF_DUMP_SOLUTION")
 			out.U = readU(dumpPath)
@@ -375,15 +381,7 @@ func runPipe(c pipeCase) (out jPipeOut) {
 		}
 		if out.SolvePanic == "" && sol != nil {
 			guard(&out.SolvePanic, func() {
-				for _, es := range sol.Elements {
-					sb := jSolBar{ID: es.GetID(), Series: map[string]jSeries{
-						"gdx": series(es.GlobalXDispl), "gdy": series(es.GlobalYDispl), "grz": series(es.GlobalZRot),
-						"ldx": series(es.LocalXDispl), "ldy": series(es.LocalYDispl), "lrz": series(es.LocalZRot),
-						"axial": series(es.AxialStress), "shear": series(es.ShearForce), "bend": series(es.BendingMoment),
-						"bend_axial": series(es.BendingMomentTopFiberAxialStress),
-					}}
-					out.Sol = append(out.Sol, sb)
-				}
+				out.Sol = dumpSol(sol)
 				var sbuf bytes.Buffer
 				iosol.Write(sol, &sbuf)
 				out.SolText = sbuf.String()
@@ -393,6 +391,26 @@ func runPipe(c pipeCase) (out jPipeOut) {
 				out.Reactions = map[string][3]string{}
 				for id, r := range sol.NodeReactions() {
 					out.Reactions[id] = t3(r)
+				}
+			})
+		}
+	}
+	if c.HoldText != "" && len(out.Sol) > 0 {
+		// a caller that solves two load cases one after the other and compares them afterwards
+		guard(&out.HeldPanic, func() {
+			str2 := iodef.Read(strings.NewReader(c.HoldText))
+			pre2 := preprocess.StructureModel(str2, &preprocess.PreprocessOptions{IncludeOwnWeight: c.Weight})
+			func() {
+				defer func() { recover() }() // whether the second one solves does not matter here
+				process.Solve(pre2, process.SolveOptions{MaxDisplacementsError: pf(out.MaxError)})
+			}()
+		})
+		if out.HeldPanic == "" {
+			guard(&out.HeldPanic, func() {
+				out.SolHeld = dumpSol(solKept)
+				out.ReacHeld = map[string][3]string{}
+				for id, r := range solKept.NodeReactions() {
+					out.ReacHeld[id] = t3(r)
 				}
 			})
 		}
@@ -421,6 +439,19 @@ func runPipe(c pipeCase) (out jPipeOut) {
 		out.Again = ag
 	}
 	return
+}
+
+func dumpSol(sol *process.Solution) []jSolBar {
+	var bars []jSolBar
+	for _, es := range sol.Elements {
+		bars = append(bars, jSolBar{ID: es.GetID(), Series: map[string]jSeries{
+			"gdx": series(es.GlobalXDispl), "gdy": series(es.GlobalYDispl), "grz": series(es.GlobalZRot),
+			"ldx": series(es.LocalXDispl), "ldy": series(es.LocalYDispl), "lrz": series(es.LocalZRot),
+			"axial": series(es.AxialStress), "shear": series(es.ShearForce), "bend": series(es.BendingMoment),
+			"bend_axial": series(es.BendingMomentTopFiberAxialStress),
+		}})
+	}
+	return bars
 }
 
 func readTemplate(repo, rel string) string {
